@@ -164,41 +164,6 @@ example : removeExt poisonOid (marshalTbs (exBase.withExts [exPoison])) = some (
 
 /-! ## `routes_commute` (direct issuer) -/
 
-theorem mem_take_of_noOid {oid : Bytes} {es : List Ext} (h : hasOid oid es = false) (i : Nat) :
-    (∀ e ∈ es.take i, e.oid ≠ oid) ∧ (∀ e ∈ es.drop i, e.oid ≠ oid) := by
-  have := hasOid_false.mp h
-  exact ⟨fun e he => this e (List.mem_of_mem_take he), fun e he => this e (List.mem_of_mem_drop he)⟩
-
-/-- removing the one extension that was inserted gives back the certificate without it (and that one is canonical) -/
-theorem removeExt_insert (t : Tbs) (es : List Ext) (i : Nat) (x : Ext) (oid : Bytes) (hx : x.oid = oid)
-    (hn : hasOid oid es = false) (hw : (t.withExts (insertAt es i x)).wf = true) :
-    removeExt oid (marshalTbs (t.withExts (insertAt es i x))) = some (marshalTbs (t.withExts es)) ∧
-    (t.withExts es).wf = true := by
-  obtain ⟨hA, hB⟩ := mem_take_of_noOid hn i
-  have hrm : removeOne oid (insertAt es i x) = some es := by
-    rw [insertAt, removeOne_mid oid _ _ x hx hA hB, List.take_append_drop]
-  have hoks : ∀ e ∈ es, e.ok = true := by
-    have h10 := (wf_parts hw).2.2.2.2.2.2.2.2.2.1
-    simp only [Tbs.withExts, optAll, extsOk, Bool.and_eq_true, List.all_eq_true] at h10
-    intro e he
-    apply h10.1.1
-    rw [← List.take_append_drop i es] at he
-    simp only [insertAt, List.mem_append, List.mem_cons] at he ⊢
-    rcases he with he | he
-    · exact Or.inl he
-    · exact Or.inr (Or.inr he)
-  have hlen : (encExts es).length ≤ (encExts (insertAt es i x)).length := by
-    have e := congrArg (fun l => (encExts l).length) (List.take_append_drop i es)
-    simp only [encExts_append, List.length_append] at e
-    simp only [insertAt, encExts_append, encExts_cons, List.length_append]
-    omega
-  have hw' : (t.withExts es).wf = true := wf_setExts (t := t.withExts (insertAt es i x)) hw rfl hoks hlen
-  refine ⟨?_, hw'⟩
-  have hp := parseTbs_marshal _ hw
-  unfold removeExt
-  rw [hp]
-  simp [removeExtT, Tbs.withExts, hrm]
-
 /-- **The two routes commute (direct issuer).** For every certificate content `t`, every list `es` of other extensions,
 every position `i` of the poison and `j` of the SCT list, any criticality and value of either:
 `BuildPrecertTBS(precert, nil)` and `RemoveSCTList(final)` are the same bytes — the marshalling of `t` with exactly `es`
@@ -239,24 +204,6 @@ inductive AkiRel : Option Bytes → List Ext → List Ext → Prop
   | append (es : List Ext) (v : Bytes) : noAki es → AkiRel (some v) es (es ++ [⟨akiOid, false, v⟩])
   /-- neither has one -/
   | same (es : List Ext) : noAki es → AkiRel none es es
-
-theorem setFirst_mid (oid v : Bytes) (A B : List Ext) (x : Ext) (hx : x.oid = oid) (hA : ∀ e ∈ A, e.oid ≠ oid) :
-    setFirst oid v (A ++ x :: B) = A ++ { x with val := v } :: B := by
-  induction A with
-  | nil => simp [setFirst, hx]
-  | cons a A ih =>
-    have ha : a.oid ≠ oid := hA a (by simp)
-    simp only [List.cons_append, setFirst, ha, if_false]
-    rw [ih (fun e he => hA e (by simp [he]))]
-
-theorem eraseFirst_mid (oid : Bytes) (A B : List Ext) (x : Ext) (hx : x.oid = oid) (hA : ∀ e ∈ A, e.oid ≠ oid) :
-    eraseFirst oid (A ++ x :: B) = A ++ B := by
-  induction A with
-  | nil => simp [eraseFirst, hx]
-  | cons a A ih =>
-    have ha : a.oid ≠ oid := hA a (by simp)
-    simp only [List.cons_append, eraseFirst, ha, if_false]
-    rw [ih (fun e he => hA e (by simp [he]))]
 
 /-- the code's update computes exactly that relation -/
 theorem akiUpdate_rel {aki : Option Bytes} {pe fe : List Ext} (h : AkiRel aki pe fe) : akiUpdate aki (some pe) = some fe := by
@@ -435,43 +382,6 @@ example : leafFromPrecertChain (marshalTbs (exBase.withExts [exPoison, exKU])) [
   set_option maxRecDepth 100000 in decide
 
 /-! ## `sctlist_roundtrip` -/
-
-theorem encSctItems_parse (lim : SctLimits) (hmax : lim.itemMax < 65536) (l : List Bytes) (b : Bytes) (f : Nat)
-    (h : encSctItems lim l = some b) (hf : b.length ≤ f) : parseSctItemsF lim f b = some l := by
-  induction l generalizing b f with
-  | nil => simp [encSctItems] at h; subst h; cases f <;> rfl
-  | cons s rest ih =>
-    simp only [encSctItems] at h
-    split at h
-    · simp at h
-    · rename_i hb
-      cases hr : encSctItems lim rest with
-      | none => simp [hr] at h
-      | some r =>
-        simp only [hr] at h
-        simp at h; subst h
-        have hs : s.length < 65536 := by omega
-        have h2 : (beEnc 2 s.length).length = 2 := beEnc_length 2 _
-        cases hc : beEnc 2 s.length ++ (s ++ r) with
-        | nil =>
-          have := congrArg List.length hc
-          simp [h2] at this
-        | cons b0 bs0 =>
-          cases f with
-          | zero => rw [hc] at hf; simp at hf
-          | succ f =>
-            simp only [parseSctItemsF]
-            rw [← hc]
-            have t2 : (beEnc 2 s.length ++ (s ++ r)).take 2 = beEnc 2 s.length := take_append_len _ _ _ h2
-            have d2 : (beEnc 2 s.length ++ (s ++ r)).drop 2 = s ++ r := drop_append_len _ _ _ h2
-            have hd : beDec (beEnc 2 s.length) = s.length := beDec_beEnc 2 _ (by simpa using hs)
-            rw [t2, d2, hd]
-            have c1 : ¬ (beEnc 2 s.length ++ (s ++ r)).length < 2 := by simp [h2]
-            have c2 : ¬ (s.length < lim.itemMin ∨ lim.itemMax < s.length) := hb
-            have c3 : ¬ (s ++ r).length < s.length := by simp
-            simp only [c1, c2, c3, if_false]
-            rw [drop_append_len s r _ rfl, take_append_len s r _ rfl]
-            rw [ih r f hr (by simp [h2] at hf; omega)]
 
 /-- **The SCT list read back equals the list embedded, element for element.** For the regenerated limits: whatever
 `ASN1MarshalSCTs` / `tls.Marshal(SignedCertificateTimestampList)` + `asn1.Marshal` writes as the extension value, the
